@@ -10,6 +10,7 @@ CONSTANTS
   Entries = {"run", "call", "evaluate"}
   TracerStyles = {"none"}
   Threadeds = {FALSE}
+  Givens = {}
   Flags = {"phantom_line"}
 INVARIANT Restored
 INVARIANT Contained
